@@ -114,4 +114,37 @@ class Plugin(HistPlugin):
                              'failing_clause': 'the filter-taking entry points disagree on one state and filter'})
                 if len(viol) >= 3:
                     break
-        return viol, {'entry_point_probes': n, 'entry_points_agree': agree, 'some_entry_point_raises': raised}
+        # modified_count is the number of documents whose content differs afterwards (implementation
+        # only: also decides when the Coq side does not build) - updates that edit arrays and
+        # scalars at the top level and below, no-ops included
+        mp = 0
+        for i in range(80 if tier == 'quick' else 1600):
+            docs = [{'_id': k, 'g': rng.choice([1, 2]), 'tags': [rng.choice(['a', 'b', 'c']) for _ in range(rng.choice([0, 1, 2, 3]))],
+                     'n': rng.choice([0, 1, 5]), 'd': {'l': [rng.choice([1, 2]) for _ in range(rng.choice([0, 2]))]}}
+                    for k in range(rng.choice([1, 2, 3, 4]))]
+            u = rng.choice([{'$pull': {'tags': rng.choice(['a', 'b'])}}, {'$pull': {'d.l': 1}}, {'$pop': {'tags': 1}},
+                            {'$addToSet': {'tags': 'a'}}, {'$pullAll': {'tags': ['a', 'c']}}, {'$inc': {'n': rng.choice([0, 1])}},
+                            {'$set': {'n': 1}}, {'$max': {'n': 1}}, {'$unset': {'zz': ''}}, {'$push': {'tags': 'z'}},
+                            {'$pull': {'tags': 'a'}, '$set': {'n': 5}}, {'$rename': {'zz': 'yy'}}])
+            f = rng.choice([{}, {'g': 1}, {'n': {'$gte': 1}}])
+            c = mongomock.MongoClient().db.c
+            c.insert_many(copy.deepcopy(docs))
+            before = {d['_id']: d for d in copy.deepcopy(list(c.find()))}
+            multi = rng.random() < 0.7
+            try:
+                res = (c.update_many if multi else c.update_one)(copy.deepcopy(f), copy.deepcopy(u))
+            except Exception:  # noqa
+                continue
+            mp += 1
+            after = {d['_id']: d for d in c.find()}
+            differ = sum(1 for k in before if before[k] != after.get(k))
+            if res.modified_count != differ or res.matched_count < res.modified_count:
+                viol.append({'case': {'docs': common.to_jsonable(docs), 'filter': common.to_jsonable(f),
+                                      'update': common.to_jsonable(u), 'multi': multi},
+                             'impl': {'matched_count': res.matched_count, 'modified_count': res.modified_count,
+                                      'documents_that_differ': differ},
+                             'failing_clause': 'modified_count is not the number of documents whose content differs afterwards'})
+                if len(viol) >= 3:
+                    break
+        return viol, {'entry_point_probes': n, 'entry_points_agree': agree, 'some_entry_point_raises': raised,
+                      'modified_count_probes': mp}
